@@ -27,7 +27,14 @@ type FaultObj struct {
 	Str string
 	In  *FaultIn
 	Nil *FaultIn
+	NM  map[string]int64 // never made
+	L   []int64
+	MP  map[string]int64
 }
+
+// Push / Put grow the container a forRange loop of the rule is ranging over.
+func (o *FaultObj) Push(x int64) { o.L = append(o.L, x) }
+func (o *FaultObj) Put(k string) { o.MP[k+"'"] = 1 }
 
 func (o *FaultObj) M(x int64) int64 { return o.F + x + 1 }
 
@@ -35,7 +42,8 @@ func faultData() map[string]interface{} {
 	var nilp *FaultObj
 	return map[string]interface{}{
 		"p":     nilp,
-		"s":     &FaultObj{In: &FaultIn{}},
+		"s":     &FaultObj{In: &FaultIn{}, L: []int64{1, 2, 3}, MP: map[string]int64{"a": 1, "b": 2}},
+		"nm":    map[string]int64(nil),
 		"m":     map[string]int64{},
 		"l":     []int64{},
 		"l2":    []int64{4, 5},
@@ -67,6 +75,8 @@ var faultStmts = []string{
 	`x = nope`, `x = nope.F`, `x = nope.A.B`, `nofn(1)`, `x = nofn(1)`, `s.Nope(1)`, `nope.M(1)`, `s.In.Nope(1)`, `s.Nope.M(1)`,
 	// value of another class stored
 	`s.B = 5`, `s.I = "a"`, `s.I = true`, `m["k"] = "a"`, `l2[0] = "a"`, `n5 = 6`, `s.Nope = 1`, `nope.F = 1`,
+	// stores into maps that were never made
+	`s.NM["k"] = 1`, `nm["k"] = 1`,
 	// nil pointers
 	`x = p.F`, `p.F = 1`, `p.M(1)`, `x = p.In.F`, `x = s.Nil.F`, `s.Nil.M(1)`, `s.Nil.F = 2`,
 	// indexes
@@ -261,6 +271,17 @@ func c09Configs(thorough bool) (cfgs []modelCfg, bounds []int) {
 			}
 		}
 	}
+	// programs that must simply complete, in every model: loops whose body grows what they range over
+	for _, tk := range []string{"forRange i := s.L {\n    s.Push(i)\n  }", "forRange k := s.MP {\n    s.Put(k)\n  }", "for i = 0; i < 3; i += 1 {\n    s.Push(i)\n  }"} {
+		for _, m := range models {
+			if m.dag != nil {
+				continue
+			}
+			rules := []ruleCfg{{Name: ruleNames[0], Sal: 9}, {Name: ruleNames[1], Sal: 6, Tricky: tk}, {Name: ruleNames[2], Sal: 3}}
+			cfgs = append(cfgs, modelCfg{Prop: "C09", Rules: rules, Model: m.name, B: m.b, N: m.n, M: m.m, Names: m.names, Twice: true})
+			bounds = append(bounds, 0)
+		}
+	}
 	// conc blocks start goroutines in every model: every fault inside a conc block (and blocks with
 	// several members of the kind that fails) once more in the sort model under real schedule exploration
 	concFaults := []string{
@@ -425,11 +446,11 @@ func init() {
 	hx.Register(&hx.Prop{
 		ID:          "C09",
 		Workers:     func(string) int { return 16 },
-		BudgetQuick: 170 * time.Second,
+		BudgetQuick: 300 * time.Second,
 		BudgetThor:  30 * time.Minute,
 		Kind:        "schedules",
-		Rule: fmt.Sprintf("%d statement faults + %d return-position faults (type mismatches in arithmetic/comparison/logic/!, division by zero, unknown variable/function/method, wrong-class stores, nil pointers, out-of-range / negative / wrong-type indexes and keys, non-boolean conditions, bad call arguments and arities, panicking injected functions (value, error, runtime error), void result used as value, failing loop step, non-iterable forRange, faults inside conc) x nesting {top, if, for, forRange} [quick: rotated] + 6 endless for loops (iterations ending normally, through continue - direct, nested, mixed -, with an unreachable break), ", len(faultStmts), len(faultReturns)) +
-			"as rule 1-of-3 and 2-of-3 next to healthy observer rules x every engine model (x policy) [quick: every second], each called twice on the same engine (alternately with a fresh data context and on the same builder and data context) under the default schedule; representatives under every schedule with <=1 (2) deviations from the default scheduler (delay bounding) in the goroutine-spawning models; every fault inside a conc block, and conc blocks with several members of the failing kind, in the sort model under every schedule with <=1 (2) deviations; plus representatives behind all 24 pool execute methods x execution models, three requests each. " +
+		Rule: fmt.Sprintf("%d statement faults + %d return-position faults (type mismatches in arithmetic/comparison/logic/!, division by zero, unknown variable/function/method, wrong-class stores, stores into maps that were never made, nil pointers, out-of-range / negative / wrong-type indexes and keys, non-boolean conditions, bad call arguments and arities, panicking injected functions (value, error, runtime error), void result used as value, failing loop step, non-iterable forRange, faults inside conc) x nesting {top, if, for, forRange} [quick: rotated] + 6 endless for loops (iterations ending normally, through continue - direct, nested, mixed -, with an unreachable break), ", len(faultStmts), len(faultReturns)) +
+			"as rule 1-of-3 and 2-of-3 next to healthy observer rules x every engine model (x policy) [quick: every second], each called twice on the same engine (alternately with a fresh data context and on the same builder and data context) under the default schedule; representatives under every schedule with <=1 (2) deviations from the default scheduler (delay bounding) in the goroutine-spawning models; every fault inside a conc block, and conc blocks with several members of the failing kind, in the sort model under every schedule with <=1 (2) deviations; plus loops whose body grows the slice / map they range over (must complete, in every model); plus representatives behind all 24 pool execute methods x execution models, three requests each. " +
 			"Oracle: the call returns (no panic in the caller, no panic on any gengine goroutine, no deadlock, step horizon not exceeded), error non-nil, the other rules run exactly as the model's reference plan prescribes, the second call behaves the same",
 		Assume: []string{"injected functions terminate", "one level of unbounded loop (the engine's 10000-iteration cut-off)"},
 		Run: func(c *hx.Ctx) {
